@@ -197,4 +197,35 @@ theorem sum_pos_of_pos (p : List ℚ) (hne : p ≠ []) (hpos : ∀ x ∈ p, 0 < 
     · have := ih hl (fun x hx => hpos x (by simp [hx]))
       linarith
 
+
+/-! ## the order in which the taps are listed does not matter (R12) -/
+
+theorem uniqueSorted_perm {l l' : List Int} (h : l.Perm l') : uniqueSorted l = uniqueSorted l' := by
+  apply List.Perm.eq_of_pairwise (le := (· < ·)) _ (uniqueSorted_sorted l) (uniqueSorted_sorted l')
+  · rw [List.perm_ext_iff_of_nodup (uniqueSorted_nodup l) (uniqueSorted_nodup l')]
+    intro a
+    rw [mem_uniqueSorted, mem_uniqueSorted, h.mem_iff]
+  · intro a b _ _ h1 h2
+    omega
+
+theorem zip_map_fst_snd {β γ : Type} (l : List (β × γ)) : (l.map (·.1)).zip (l.map (·.2)) = l := by
+  induction l with
+  | nil => rfl
+  | cons a l ih => simp [ih]
+
+theorem collidingPower_perm (Ts : ℚ) {taps taps' : List (ℚ × ℚ)} (h : taps.Perm taps') (d : Int) :
+    collidingPower (delayIdx (taps.map (·.1)) Ts) (taps.map (·.2)) d
+      = collidingPower (delayIdx (taps'.map (·.1)) Ts) (taps'.map (·.2)) d := by
+  have key : ∀ l : List (ℚ × ℚ), (delayIdx (l.map (·.1)) Ts).zip (l.map (·.2))
+      = l.map (fun t => (roundHalfEven (t.1 / Ts), t.2)) := by
+    intro l
+    unfold delayIdx
+    rw [List.map_map]
+    induction l with
+    | nil => rfl
+    | cons a l ih => simp [ih]
+  unfold collidingPower
+  rw [key, key]
+  exact (((h.map _).filter _).map _).sum_eq
+
 end PyPhysim.C03
